@@ -95,6 +95,7 @@ func cmdRun(args []string) {
 		}
 		if cm.Stats.Result == "sat" {
 			fmt.Println("VIOLATION:", cm.BadTag)
+			fmt.Println("REPLAY:", cm.Replayed)
 			for _, l := range cm.Schedule {
 				fmt.Println("  ", l)
 			}
